@@ -23,7 +23,10 @@ Dynamic checks per execution (import trace merged by pynguin: expected = import 
 
   D1  BranchGoal(p, v).is_covered(result)  <=>  outcome v of the matched jump observed >= 1 time
       (``outcome-reported-not-taken`` / ``outcome-taken-not-reported``);
-  D2  BranchlessCodeObjectGoal(c).is_covered(result)  <=>  code object c was entered (``branchless-wrong``).
+  D2  BranchlessCodeObjectGoal(c).is_covered(result)  <=>  code object c was entered (``branchless-wrong``);
+  D3  the instrumented call ends like the plain one (``behaviour-differs``; root causes are C01's).
+
+Fingerprint: ``C03|<metric set>|<jump opcode>[:<what produced the tested value>]|<signature>``.
 """
 
 from __future__ import annotations
@@ -122,6 +125,10 @@ class Visitor:
                 else:
                     self.goals[(pid, v)] = g
         branchless = {g.code_object_id: g for g in pool.branchless_code_object_goals}
+        for k in plain.by_key:
+            if k not in rep.cid_of_key and not any(j["reachable"] for j in plain.jumps[k]):
+                col.violation(self._fp(metrics, "code-object", "goal-missing"),
+                              f"{case.name}: code object {k[0]} is not registered, so its entry is no goal", data, rank)
         for k, cid in rep.cid_of_key.items():
             has_jumps = any(j["reachable"] for j in plain.jumps[k])
             if not has_jumps and k not in unmatched_keys:
@@ -179,12 +186,13 @@ class Visitor:
                                   f"{case.name} {where}: BranchGoal({pid}, {v}).is_covered raised {exc!r}", data, rank)
                     continue
                 want = v in seen
+                opk = f"{j['op']}:{j['tests']}"
                 if got and not want:
-                    col.violation(self._fp(metrics, j["op"], "outcome-reported-not-taken"),
+                    col.violation(self._fp(metrics, opk, "outcome-reported-not-taken"),
                                   f"{case.name} {where}: outcome {v} of the {j['op']} at line {j['line']} of {k[0]} "
                                   f"is reported as covered, the interpreter only took {sorted(seen)}", data, rank)
                 elif want and not got:
-                    col.violation(self._fp(metrics, j["op"], "outcome-taken-not-reported"),
+                    col.violation(self._fp(metrics, opk, "outcome-taken-not-reported"),
                                   f"{case.name} {where}: the interpreter took outcome {v} of the {j['op']} at line "
                                   f"{j['line']} of {k[0]} (all taken: {sorted(seen)}), it is not reported as covered",
                                   data, rank)
@@ -215,7 +223,15 @@ class Visitor:
         self.per_program_outcomes.add(sig)
 
     def behaviour_differs(self, col, case, rep, metrics, idx, plain_exc, inst_exc):
-        pass
+        """The instrumented call ends differently from the plain one: whatever is reported cannot be what the
+        interpreter did on the uninstrumented code.  (Root causes belong to C01; reported here under its own
+        signature so that it is never silently skipped.)"""
+        from mc import groundtruth as gt
+
+        a_src, b_src, _ev = case.inputs[idx]
+        col.violation(self._fp(metrics, f"{plain_exc}->{inst_exc}", "behaviour-differs"),
+                      f"{case.name} f({a_src}, {b_src}): the plain call ends with {plain_exc}, the instrumented "
+                      f"call with {inst_exc}", gt.case_data(case, metrics, idx), gt.case_rank(case, idx))
 
 
 def check_program(col, name, source, meta, metric_sets, scratch, sample_every=97):
@@ -242,13 +258,18 @@ def check_program(col, name, source, meta, metric_sets, scratch, sample_every=97
                 "distinct_outcome_vectors": len(v.per_program_outcomes)}, every=sample_every)
 
 
-def shard(col, kind, min_size, max_size, max_depth, k, nshards, metric_sets, second_oracle=True):
+def shard(col, kind, min_size, max_size, max_depth, k, nshards, metric_sets, second_oracle=True, root=None):
+    import os
     import shutil
     import tempfile
 
     from mc import progen
 
-    scratch = tempfile.mkdtemp(prefix="c03_", dir="/dev/shm")
+    if root is None:
+        scratch = tempfile.mkdtemp(prefix="c03_", dir="/dev/shm")
+    else:                       # a sub-directory of the run's ctx.scratch(): removed by the parent whatever happens
+        scratch = os.path.join(root, f"{kind}_{min_size}_{max_size}_{k}_{nshards}")
+        os.makedirs(scratch, exist_ok=True)
     try:
         if kind == "seeds":
             progs = [p for i, p in enumerate(progen.seeds()) if i % nshards == k]
@@ -278,6 +299,8 @@ def plan(ctx):
         n, d = 3, 3
         jobs += [("grammar", 1, 3, d, k, 4 * w, all_sets, True) for k in range(4 * w)]
     jobs += [("seeds", 0, 0, 0, k, 4, all_sets, True) for k in range(4)]
+    root = ctx.scratch(prefix="c03_")
+    jobs = [(*j, root) for j in jobs]
     if ctx.seed:
         r = ctx.seed % len(jobs)
         jobs = jobs[r:] + jobs[:r]
@@ -291,34 +314,50 @@ def run(ctx):
     par.run_shards("props.c03_branch_coverage:shard", jobs, ctx.workers, ctx)
 
     c = ctx.col.counters
+    soft_failed = []
+    import os
+
+    from mc import findings
+    known = findings.load(os.environ.get("VERIF_HOME", os.path.dirname(os.path.dirname(os.path.abspath(__file__)))))
+    unlisted = [fp for fp in ctx.col.violations if findings.match(known, ID, fp) is None]
+
+    def guard(cond, msg, hard=False):
+        """Vacuity guards are harness errors -- unless a violation was found: a replayable counterexample is a
+        verdict on its own (exit 1) and must not be hidden behind exit 2; with only known findings, or none, the
+        guards are hard.  Oracle self-consistency and completeness of the enumeration are always hard."""
+        if cond:
+            return
+        if hard or not unlisted:
+            ctx.require(False, msg)
+        soft_failed.append(msg)
+
     total = sum(progen.count(n, d).values())
     ctx.note("progen_bound", {"max_size": n, "max_depth": d, "programs_in_bound": total,
                               "seeds": len(progen.seeds())})
     ctx.note("metric_sets", ["+".join(m) for m in METRIC_SETS])
     ctx.note("tier_plan", "sizes<=2 + seeds: all metric sets; size 3: BRANCH only" if ctx.quick
              else "sizes<=3 (depth<=3) + seeds: all metric sets")
-    ctx.require(c.get("grammar_programs", 0) == total, f"grammar programs {c.get('grammar_programs')} != {total}")
-    ctx.require(c.get("seeds_programs", 0) == len(progen.seeds()), "not every seed was checked")
-    ctx.require(c.get("instrumentation_failures", 0) * 10 <= c.get("modules_loaded", 0),
+    guard(c.get("grammar_programs", 0) == total, f"grammar programs {c.get('grammar_programs')} != {total}", hard=True)
+    guard(c.get("seeds_programs", 0) == len(progen.seeds()), "not every seed was checked", hard=True)
+    guard(c.get("instrumentation_failures", 0) * 10 <= c.get("modules_loaded", 0),
                 "too many modules could not be instrumented: "
                 f"{[v for k, v in ctx.col.notes.items() if k.startswith('instrumentation_failure')]}")
-    ctx.require(len(ctx.col.sets.get("outcomes", ())) > 50, "vacuous: too few distinct outcome vectors")
-    ctx.require(len(ctx.col.sets.get("nontrivial", ())) >= 2, "vacuous: no program whose inputs differ in outcomes")
+    guard(len(ctx.col.sets.get("outcomes", ())) > 50, "vacuous: too few distinct outcome vectors")
+    guard(len(ctx.col.sets.get("nontrivial", ())) >= 2, "vacuous: no program whose inputs differ in outcomes")
     for op in ("POP_JUMP_IF_TRUE", "POP_JUMP_IF_FALSE", "POP_JUMP_IF_NONE", "POP_JUMP_IF_NOT_NONE", "FOR_ITER"):
         for v in (True, False):
             from mc.ctx import h64
-            ctx.require(h64((op, v)) in ctx.col.sets.get("outcomes_seen", set()),
+            guard(h64((op, v)) in ctx.col.sets.get("outcomes_seen", set()),
                         f"vacuity: outcome {v} of {op} never taken by any input")
-    ctx.require(c.get("branchless_entered", 0) > 0, "vacuity: no branch-less code object entered")
-    ctx.require(c.get("edge_labels_checked", 0) > c.get("edge_labels_undecidable", 0) * 2,
+    guard(c.get("branchless_entered", 0) > 0, "vacuity: no branch-less code object entered")
+    guard(c.get("edge_labels_checked", 0) > c.get("edge_labels_undecidable", 0) * 2,
                 "most CFG edge labels could not be located")
     declared = ctx.col.sets.get("constructs_declared", set())
     evidenced = ctx.col.sets.get("constructs_evidenced", set())
-    ctx.require(declared and declared == evidenced,
+    guard(declared and declared == evidenced,
                 f"vacuity: constructs never seen in dis output: {sorted(declared - evidenced)}")
-    ctx.require(c.get("behaviour_differs", 0) * 50 <= c.get("evaluations", 1),
-                f"too many calls behave differently when instrumented ({c.get('behaviour_differs')}): "
-                f"{ctx.col.notes.get('behaviour_differs_example')}")
+    if soft_failed:
+        ctx.note("vacuity_guards_failed_but_violations_found", soft_failed)
     ctx.exhaustive = True
     ctx.rule = ("one evaluation = one execution (module import or one call f(a, b)) under one metric set, all of "
                 "whose branch goals' covered verdicts are compared with the interpreter's BRANCH events; "
@@ -328,8 +367,8 @@ def run(ctx):
                "of an event is read off the jump opcode (see module docstring), not off pynguin's get_branch_type")
     ctx.assume("conditional jumps in statically unreachable bytecode (CPython keeps some) can never be taken and "
                "are not required to be predicates")
-    ctx.assume("calls whose exception type differs between plain and instrumented run are C01's subject and are "
-               "skipped here (counted in behaviour_differs)")
+    ctx.assume("a call whose exception type differs between plain and instrumented run is reported once as "
+               "behaviour-differs (root cause: C01) and its coverage is not compared further")
     ctx.assume("programs whose module cannot be loaded through the import hook (instrumentation raises) are "
                "counted (instrumentation_failures) and skipped: 'instrumenting never raises' is C01's subject")
     ctx.assume("no coverage exclusions configured (C08); distances are C04's subject, only distance == 0 is used")
